@@ -43,6 +43,8 @@ def selftests(ctx, rep, pid):
     for c in selftest.load_cases():
         if c['kind'] == 'mutant' and pid not in c.get('expect', {}):
             continue
+        if c['kind'] == 'refactor' and c.get('for') not in (None, pid):
+            continue      # an agent-written variant aimed at another property: exercised by that property's thorough tier
         good, why = selftest.run_case(c, [pid])
         n += 1
         rep.ob(good, 'T.self', 'selftest', '%s %s' % (c['kind'], c['name']), why, 'selftest/cases/%s.json' % c['name'], nontrivial=False)
